@@ -46,6 +46,8 @@ var charrefs = []payload{
 	{"ref-esc-csi", "&#27;[2J"}, {"ref-esc-hex", "&#x1b;[31m"}, {"ref-esc-osc", "&#x1B;]0;x&#7;"}, {"ref-c1-csi", "&#155;2J"}, {"ref-c1-hex", "&#x9b;31m"}, {"ref-c1-osc", "&#157;0;x&#156;"},
 	{"ref-bs", "&#8;&#8;"}, {"ref-del", "&#127;"}, {"ref-cr", "&#13;"}, {"ref-nul", "&#0;"}, {"ref-nel", "&#x85;"}, {"ref-esc-nosemi", "&#27[2J"}, {"ref-esc-padded", "&#0000027;[2J"},
 	{"ref-named", "&ESC;&NewLine;&Tab;&#x1b"}, {"ref-bel", "&#7;"}, {"ref-so", "&#14;&#15;"},
+	// percent-encoded controls: harmless as long as addresses are shown in their escaped form
+	{"pct-esc-csi", "%1B%5B2J"}, {"pct-esc-osc", "%1b]0;x%07"}, {"pct-c1", "%C2%9B2J"}, {"pct-c1-raw", "%9B31m"}, {"pct-del-bs", "%7F%08%08"}, {"pct-cr-nul", "%0D%00"}, {"pct-esc-sgr", "%1B[31m"},
 }
 
 type c01case struct {
@@ -267,6 +269,8 @@ func TestVerifC01(t *testing.T) {
 		route := "json"
 		if strings.HasPrefix(p.class, "ref-") {
 			route = "charref"
+		} else if strings.HasPrefix(p.class, "pct-") {
+			route = "pctenc"
 		}
 		doc, markup := build(f, p.raw)
 		raw, _ := json.Marshal(doc)
@@ -382,6 +386,33 @@ func TestVerifC01(t *testing.T) {
 				renderAll(c, t, d, []int{60})
 				if ps, _ := t.Parents(1); len(ps) > 0 {
 					renderAll(c, ps[0], d, []int{30})
+				}
+			}
+			// ... and where the error surfaces inside an otherwise healthy item: an actor's outbox, an activity's actor or object,
+			// a post's audience, a collection's page
+			healthy := []map[string]any{
+				{"type": "Person", "name": "healthy", "outbox": u, "icon": u, "image": u},
+				{"type": "Announce", "actor": u, "object": map[string]any{"type": "Note", "name": "n", "content": "x"}},
+				{"type": "Like", "actor": map[string]any{"type": "Person", "name": "p"}, "object": u},
+				{"type": "Note", "name": "n", "content": "x", "audience": []any{u, u}, "attributedTo": []any{u}, "comments": u, "url": u, "attachment": u},
+				{"type": "OrderedCollection", "first": u, "orderedItems": []any{u, map[string]any{"type": "Note", "name": "n", "inReplyTo": u}}},
+			}
+			for _, hdoc := range healthy {
+				var hitem any
+				if c.Guard("control:build:", d, func() { hitem = pub.New(hdoc, nil) }) {
+					continue
+				}
+				switch x := hitem.(type) {
+				case pub.Tangible:
+					renderAll(c, x, d, []int{50, 9})
+					if kids, _ := wk.HarvestAll(x.Children(), []int{3}, 4); len(kids) > 0 {
+						renderAll(c, kids[0], d, []int{40})
+					}
+				case *pub.Collection:
+					kids, _ := wk.HarvestAll(x, []int{3}, 5)
+					for _, k := range kids {
+						renderAll(c, k, d, []int{40})
+					}
 				}
 			}
 			c.NontrivialEnumerated()
